@@ -133,20 +133,26 @@ def wellNamed {κ : Type} (suf : Name) (listing : List (File κ)) : Bool :=
 
 def floorSub (a b : Rat) : Rat := max (a - b) 0
 
-/-- estimate minus the correction of the same key, floored at zero, column by column; an estimate
-without a correction row ends as 0 (NaN, later `fillna(0)`) -/
+/-- one estimate row against the correction table: the correction of the same key is subtracted,
+floored at zero, column by column; without a correction row the cells end as 0 (NaN, later
+`fillna(0)`) -/
+def estCell (rep : Table (List Rat)) (k : Key) (e : List Rat) : List Rat :=
+  match rep.lookup k with
+  | some r => List.zipWith floorSub e r
+  | none => e.map fun _ => 0
+
+/-- estimate minus the correction of the same key -/
 def estJoin (est rep : Table (List Rat)) : Table (List Rat) :=
-  est.map fun x =>
-    (x.1, match rep.lookup x.1 with
-          | some r => List.zipWith floorSub x.2 r
-          | none => x.2.map fun _ => 0)
+  est.map fun x => (x.1, estCell rep x.1 x.2)
+
+def mergeCell (nY : Nat) (est : Table (List Rat)) (k : Key) (r : List Val) : List Val :=
+  r ++ match est.lookup k with
+       | some e => e.map Val.q
+       | none => List.replicate nY (Val.q 0)
 
 /-- outer merge on the key, missing cells 0 -/
 def mergeOuter (nE nY : Nat) (emis : Table (List Val)) (est : Table (List Rat)) : Table (List Val) :=
-  (emis.map fun x =>
-      (x.1, x.2 ++ match est.lookup x.1 with
-                   | some e => e.map Val.q
-                   | none => List.replicate nY (Val.q 0)))
+  (emis.map fun x => (x.1, mergeCell nY est x.1 x.2))
   ++ ((est.filter fun x => (emis.lookup x.1).isNone).map fun x =>
       (x.1, List.replicate nE (Val.q 0) ++ x.2.map Val.q))
 
